@@ -611,8 +611,15 @@ class C04(Property):
         'the closures max_euler_step_cb / linear_dependencies defined at the end of get_odesys: C06 / C05',
         'non-polynomial rate expressions (Arrhenius, Eyring, Radiolytic, ...): C16; here every parameter is mass-action with a '
         'rational / named / symbolic constant',
-        'user-supplied substance_symbols / parameter_symbols of _create_odesys: modelled for Symbol(key) values (theorem user_symbols); other '
-        'symbol names and a user time_symbol are not modelled',
+        'user-supplied substance_symbols (OrderedDict or plain dict) / parameter_symbols of _create_odesys: modelled for Symbol(key) values '
+        '(theorems user_symbols, user_symbols_kinetic_model, plain_dict_symbols_bind_by_key); other symbol names and a user time_symbol are '
+        'not modelled',
+        'rhsG_is_NT_r (active substitutions) is stated in the internal form only (N^T r for what `variables` resolves to): no explicit-'
+        'environment corollary with a capture hypothesis for Expr-valued substitutions; the oracle covers it (own expectation from the case)',
+        '_create_odesys with a substance named like a parameter / unique key (one sympy symbol for both): listed finding '
+        '_create_odesys:substance-named-like-parameter-key, the oracle claims N^T r with the two quantities kept apart (with user-supplied symbol '
+        'dicts the oracle still makes no claim there); a unique key called \'time\' that is substituted is accepted '
+        'by get_odesys but `unmodelled` in the Lean model (never generated)',
         'odesys.f_cb and extra[\'rate_exprs_cb\'] (lambdified float code): correspondence and oracle at rational points only',
         'the order of the CSTR keys inside param_names (a Python set): compared as a set, no theorem',
         'linear_invariants handed to SymbolicSys (C05) and variables[\'time\']: not part of the model',
@@ -680,7 +687,7 @@ class C04(Property):
             c = self._gen_one(rng, tier)
             if c['rxns'] and clean(c):
                 break
-        for k in ('active', 'consts', 'subst_symbols', 'param_symbols'):
+        for k in ('active', 'consts', 'subst_symbols', 'subst_symbols_plain', 'param_symbols'):
             c.pop(k, None)
         c['op'] = None
         c['kind'] = 'pk'
@@ -1142,7 +1149,39 @@ class C04(Property):
                 if c['builder'] == 'get' else None
         if c['builder'] == 'create' and set(c['subst']) & set(
                 [s['param'].get('uk') for s in c['rxns']] + [k for k, _ in c['param_exprs']]):
-            return None           # a substance named like a parameter key: one sympy symbol for both, nothing to require
+            # a substance named like a parameter key (known finding `_create_odesys:substance-named-like-parameter-key`):
+            # the kinetic model keeps the concentration and the parameter apart; the real build has ONE sympy symbol for both
+            if want_coeffs is None or not participates(c) <= set(c['subst']) or len(odesys.exprs) != len(c['subst']):
+                return None
+            clashing = set(c['subst']) & set([s['param'].get('uk') for s in c['rxns']] + [k for k, _ in c['param_exprs']])
+            pe1 = dict((k, kg.frac(v)) for k, v in c['param_exprs'])
+            dep = dict(zip(odesys.names, odesys.dep))
+            par = dict(zip(odesys.param_names, odesys.params))
+            par.update({k: sympy.Symbol('parameter_' + k) for k in clashing})
+
+            def conc(n):
+                return dep[n]
+
+            def coef(k):
+                if not isinstance(k, str):
+                    return sympy.Rational(k.numerator, k.denominator)
+                return sympy.Rational(pe1[k].numerator, pe1[k].denominator) if k in pe1 else par[k]
+            try:
+                for i, sk in enumerate(c['subst']):
+                    tot = sympy.Integer(0)
+                    for srx, k in zip(c['rxns'], want_coeffs):
+                        r = coef(k)
+                        for j, nu in srx['reac']:
+                            r = r * conc(j) ** nu
+                        tot = tot + kg.net_of(srx, sk) * r
+                    if c['cstr']:
+                        tot = tot + par['feedratio'] * (par['fc_' + sk] - conc(sk))
+                    if not poly_equal(odesys.exprs[i], tot):
+                        return ('d[%s]/dt = %s but N^T r = %s with the parameter(s) %s kept apart from the concentration(s) of the same name'
+                                % (sk, odesys.exprs[i], sympy.expand(tot), sorted(clashing)))
+            except KeyError:
+                return None
+            return None
         if set(odesys.names) & set(odesys.param_names):
             return None if c['builder'] == 'create' else 'a substance and a parameter share the name %s' % (set(odesys.names) & set(odesys.param_names))
         if list(odesys.names) != list(c['subst']):
@@ -1641,6 +1680,11 @@ class C04(Property):
         symbol* under the unique key (the rate constant silently becomes a concentration; a value-less key is accepted) or the
         substitution overwrites the concentration.  Characterising predicate: get_odesys and the unique key of some reaction
         is a substance key (with include_params=False and no substitution of that key the build is refused, so nothing fails)."""
+        if (c.get('op') == 'build' or c.get('kind') == 'fractional') and c['builder'] == 'create':
+            # Finding `_create_odesys:substance-named-like-parameter-key`: one sympy symbol per NAME; predicate: some parameter key
+            # (unique key / string parameter / parameter-expression key) equals a substance key
+            if set(c['subst']) & set([s['param'].get('uk') for s in c['rxns']] + [k for k, _ in c['param_exprs']]):
+                return '_create_odesys:substance-named-like-parameter-key'
         if (c.get('op') == 'build' or c.get('kind') == 'fractional') and c['builder'] == 'get':
             if any(s['param'].get('uk') in c['subst'] for s in c['rxns']):
                 return 'get_odesys:substance-named-like-unique-key'
